@@ -54,6 +54,7 @@ def build_env(ctx: ShardCtx, res: ShardResult):
         synth.add_structural_streams(env, ctx, res)
         synth.add_offset_start_stream(env, res)      # decode times that start at 100 s
         synth.add_layout_variants_stream(env, res)   # explicit base (encrypted), free box before mdat
+        synth.add_long_first_fragment_stream(env, res)   # segments that start late against the nominal grid
     except ImportError:
         pass
     index = StoredIndex(env)
